@@ -6,7 +6,9 @@ NOT_APPLICABLE = {
            "the monolithic harness did not finish in 8 min; not claimed until a unit exists that catches a seeded change",
     "C06": "the guarantee is the cross-thread order in which Arc/guard references are released (Drop + reference counts); Verus models neither, Kani has no threads and did not finish even 4 sequential symbolic drop steps",
     "C07": "quantifies over programs given to a proc macro; no installed deductive verifier takes token streams as symbolic input and the inflection lives in a dependency",
-    "C10": "conservation is over histories of a hashbrown raw-entry map and macro-generated Merge/Key impls; flush completion and termination are properties of a closure inside thread::spawn; none is addressable by a function contract here",
+    "C10": "conservation is over histories of a hashbrown raw-entry map and macro-generated Merge/Key impls; flush completion and termination are properties of a closure inside thread::spawn. "
+           "A Verus unit for KeyedAggregator::{get_or_create_accum, merge, flush} over a ghost-map model of the raw-entry API was drafted (units/_draft_aggregator.py) but the extracted real signature "
+           "(generic associated type Key<'a> under &'a mut HashMap<Key<'static>, _>) is rejected by this Verus' lifetime pass (E0309: implied bounds lost), so nothing is claimed",
     "C13": "decided by tokio::oneshot send vs. flush-guard release order inside a destructor racing with the parent's close on another thread",
     "C17": "the routing code is the body of a macro_rules! over a static RwLock, a thread-local and a per-runtime map; histories span threads and runtimes",
     "C20": "exactly-once accounting rests on the atomicity of swap(0)/drain against concurrent updates; there is no sequential function whose contract carries it",
